@@ -311,6 +311,10 @@ def run_impl_batch(histories, backends=BACKENDS, procs=None):
     """histories: list of (symbolic ops, universe).  One result dict {backend: run} per history.
     Forks workers (each keeps at most one PeeweeStorage open at a time)."""
     procs = procs or min(12, os.cpu_count() or 2)
+    # PeeweeStorage.__init__ creates the default data dir with a check-then-mkdir: do it once
+    # here so that forked workers cannot race on it
+    from aw_core.dirs import get_data_dir
+    get_data_dir("aw-server")
     tmp = tempfile.mkdtemp(prefix="awstore-batch-")
     _WORK.update(hist=histories, backends=list(backends), tmp=tmp)
     n = len(histories)
